@@ -205,4 +205,18 @@ theorem C13_other_host_never_served (lower : Validators.Bytes → Validators.Byt
   intro p hp hne id hf
   exact hne ((C13_session_never_accepted_elsewhere lower w hw sts).2 p hp id hf).1
 
+/-- Tie (T1): the decoder tags of the upstream file's structs (`internal/proxy/proxy_config.go`) — the names under which the environment and the files reach each setting this
+property depends on (TTLs, cookie flags, client credentials, root domains, allow rules …). A tag that changes re-routes or drops a
+setting without any code noticing. -/
+theorem C13_tags_proxyUpstreamTags : Sso.Generated.proxyUpstreamTags =
+    ["ServiceConfig.Service yaml:\"service\"", "ServiceConfig.ClusterConfigs yaml:\",inline\"", "SimpleRoute.FromURL ", "SimpleRoute.ToURL ", "RewriteRoute.FromRegex ", "RewriteRoute.ToTemplate ", "UpstreamConfig.Service ", "UpstreamConfig.RouteConfig yaml:\",inline\"", "UpstreamConfig.ExtraRoutes yaml:\"extra_routes\"", "UpstreamConfig.Route ", "UpstreamConfig.SkipAuthCompiledRegex ", "UpstreamConfig.AllowedGroups ", "UpstreamConfig.AllowedEmailDomains ", "UpstreamConfig.AllowedEmailAddresses ", "UpstreamConfig.TLSSkipVerify ", "UpstreamConfig.SkipAuthPreflight ", "UpstreamConfig.PassAccessToken ", "UpstreamConfig.PreserveHost ", "UpstreamConfig.HMACAuth ", "UpstreamConfig.Timeout ", "UpstreamConfig.ResetDeadline ", "UpstreamConfig.FlushInterval ", "UpstreamConfig.HeaderOverrides ", "UpstreamConfig.InjectRequestHeaders ", "UpstreamConfig.SkipRequestSigning ", "UpstreamConfig.CookieName ", "UpstreamConfig.ProviderSlug ", "RouteConfig.From yaml:\"from\"", "RouteConfig.To yaml:\"to\"", "RouteConfig.Type yaml:\"type\"", "RouteConfig.Options yaml:\"options\"", "OptionsConfig.HeaderOverrides yaml:\"header_overrides\"", "OptionsConfig.InjectRequestHeaders yaml:\"inject_request_headers\"", "OptionsConfig.SkipAuthRegex yaml:\"skip_auth_regex\"", "OptionsConfig.AllowedGroups yaml:\"allowed_groups\"", "OptionsConfig.AllowedEmailDomains yaml:\"allowed_email_domains\"", "OptionsConfig.AllowedEmailAddresses yaml:\"allowed_email_addresses\"", "OptionsConfig.TLSSkipVerify yaml:\"tls_skip_verify\"", "OptionsConfig.SkipAuthPreflight yaml:\"skip_auth_preflight\"", "OptionsConfig.PassAccessToken yaml:\"pass_access_token\"", "OptionsConfig.PreserveHost yaml:\"preserve_host\"", "OptionsConfig.Timeout yaml:\"timeout\"", "OptionsConfig.ResetDeadline yaml:\"reset_deadline\"", "OptionsConfig.FlushInterval yaml:\"flush_interval\"", "OptionsConfig.SkipRequestSigning yaml:\"skip_request_signing\"", "OptionsConfig.ProviderSlug yaml:\"provider_slug\"", "OptionsConfig.CookieName ", "ErrParsingConfig.Message ", "ErrParsingConfig.Err "] := by decide
+
+/-- Tie (T1), third wave: the constructors and option functions that hand configured values to the components this property
+speaks about (proxy_SetUpstreamConfig, proxy_SetProvider). -/
+theorem C13_wiring3 :
+    Sso.Generated.skel_proxy_SetUpstreamConfig =
+      ["func{", "store:op.upstreamConfig", "return", "}", "return"] ∧
+    Sso.Generated.skel_proxy_SetProvider =
+      ["func{", "store:op.provider", "return", "}", "return"] := by decide
+
 end Sso.Proxy
